@@ -233,5 +233,65 @@ theorem no_mode_step_rot (φ : Nat → Outcome) (fmt : Format) (crc : Bytes → 
   | truncate T => rfl
   | reopen c r => cases c <;> rfl
 
+/-! ### the burst schedule preserves the actor invariant -/
+
+def Msg.Ok (fmt : Format) (crc : Bytes → Nat) : Msg → Prop
+  | .ev e => e.Ok fmt crc
+  | _ => True
+
+def SInv (fmt : Format) (crc : Bytes → Nat) (s : Sched) : Prop := AInv fmt crc s.a ∧ s.a.pending.length ≤ s.a.esync
+
+theorem sinv_flush {fmt : Format} {crc : Bytes → Nat} (φ : Nat → Outcome) (a : Actor)
+    (h : AInv fmt crc a) (hl : a.pending.length ≤ a.esync) :
+    AInv fmt crc (Actor.flush true φ a) ∧ (Actor.flush true φ a).pending.length ≤ (Actor.flush true φ a).esync :=
+  ⟨ainv_step true φ h hl .flush trivial (Or.inl rfl), pending_len_step true false fmt φ crc a .flush hl⟩
+
+theorem sinv_step {fmt : Format} {crc : Bytes → Nat} (maxEntries : Nat) (φ : Nat → Outcome) (s : Sched) (m : Msg)
+    (h : SInv fmt crc s) (hm : m.Ok fmt crc) : SInv fmt crc (Sched.step maxEntries φ fmt crc s m) := by
+  unfold Sched.step
+  split
+  · exact h
+  · cases m with
+    | shutdown =>
+      have := sinv_flush φ s.a h.1 h.2
+      simp only
+      split <;> exact this
+    | noop =>
+      simp only
+      split
+      · exact sinv_flush φ _ h.1 h.2
+      · split <;> exact h
+    | ev e =>
+      have h1 := ainv_step true φ h.1 h.2 e hm (Or.inl rfl)
+      have h2 := pending_len_step true false fmt φ crc s.a e h.2
+      simp only
+      split
+      · exact sinv_flush φ _ h1 h2
+      · split <;> exact ⟨h1, h2⟩
+
+theorem sinv_endBurst {fmt : Format} {crc : Bytes → Nat} (φ : Nat → Outcome) (s : Sched)
+    (h : SInv fmt crc s) : SInv fmt crc (Sched.endBurst φ s) := by
+  unfold Sched.endBurst
+  split
+  · exact sinv_flush φ s.a h.1 h.2
+  · exact h
+
+theorem sinv_foldl {fmt : Format} {crc : Bytes → Nat} (maxEntries : Nat) (φ : Nat → Outcome) (g : List Msg) (s : Sched)
+    (h : SInv fmt crc s) (hg : ∀ m ∈ g, m.Ok fmt crc) : SInv fmt crc (g.foldl (Sched.step maxEntries φ fmt crc) s) := by
+  induction g generalizing s with
+  | nil => exact h
+  | cons m g ih =>
+    simp only [List.foldl_cons]
+    exact ih _ (sinv_step maxEntries φ s m h (hg m (by simp))) (fun x hx => hg x (by simp [hx]))
+
+theorem sinv_runBursts {fmt : Format} {crc : Bytes → Nat} (maxEntries : Nat) (φ : Nat → Outcome) (bs : List (List Msg)) (s : Sched)
+    (h : SInv fmt crc s) (hb : ∀ g ∈ bs, ∀ m ∈ g, m.Ok fmt crc) : SInv fmt crc (Sched.runBursts maxEntries φ fmt crc s bs) := by
+  unfold Sched.runBursts
+  induction bs generalizing s with
+  | nil => exact h
+  | cons g bs ih =>
+    simp only [List.foldl_cons]
+    exact ih _ (sinv_endBurst φ _ (sinv_foldl maxEntries φ g s h (hb g (by simp)))) (fun x hx => hb x (by simp [hx]))
+
 end Wal
 end RedisVerif
